@@ -5,6 +5,7 @@ import AmrK.Column
 import AmrK.Pestle
 import AmrK.Header
 import AmrK.WritersChef
+import AmrK.WritersChk
 import AmrK.Scan
 import AmrK.TasteAll
 import AmrK.Grid
@@ -248,6 +249,19 @@ def opChef (j : Json) : Except String Json := do
     (← l.getArr?).toList.mapM fun b => do (← b.getArr?).toList.mapM (·.getInt?)
   return Json.mkObj [("levels", toJson ((List.zip lv newLv).map fun (b, nw) => (chef b nfIn kept (fun i => nw.getD i [])).map outJ))]
 
+open Writers in
+def opChk2plt (j : Json) : Except String Json := do
+  let lv ← levelsOfJson (← j.getObjVal? "levels")
+  let doG ← (← j.getObjVal? "gradp").getBool?
+  let doR ← (← j.getObjVal? "reactions").getBool?
+  let tags (key : String) : Except String (List (List (List Int))) := do
+    (← (← j.getObjVal? key).getArr?).toList.mapM fun l => do
+      (← l.getArr?).toList.mapM fun b => do (← b.getArr?).toList.mapM (·.getInt?)
+  let g ← tags "gradp_tags"
+  let r ← tags "ir_tags"
+  return Json.mkObj [("levels", toJson ((List.zip lv (List.zip g r)).map fun (b, (gl, rl)) =>
+    (chk2plt b (fun i => gl.getD i []) (fun i => rl.getD i []) doG doR).map outJ))]
+
 def withId (j : Json) (r : Json) : Json :=
   match j.getObjVal? "id" with
   | .ok i => r.setObjVal! "id" i
@@ -285,6 +299,7 @@ partial def loop (h : IO.FS.Stream) (out : IO.FS.Stream) (files : Std.HashMap St
         | "colander" => opColander j
         | "combine" => opCombine j
         | "chef" => opChef j
+        | "chk2plt" => opChk2plt j
         | _ => throw s!"unknown op {op}"
       match r with
       | .ok v => out.putStrLn (withId j v).compress
